@@ -153,8 +153,12 @@ func ownerRequest(step, transport, sid string, recording bool) *base.Request {
 // buildState runs the owner sequence. ok=false: a request of the sequence was refused (the sequence is
 // not a reachable situation).
 func buildState(c CtlCase) (w *ctlWorld, ok bool, err error) {
+	return buildStateWith(c, nil)
+}
+
+func buildStateWith(c CtlCase, tweak func(*gortsplib.Server)) (w *ctlWorld, ok bool, err error) {
 	w = &ctlWorld{env: sysx.NewEnv()}
-	w.srv, w.app, err = w.env.StartServer(sysx.ServerOpts{Handlers: "all", UDP: true, Desc: sysx.DefaultDesc(2)})
+	w.srv, w.app, err = w.env.StartServer(sysx.ServerOpts{Handlers: "all", UDP: true, Desc: sysx.DefaultDesc(2), Tweak: tweak})
 	if err != nil {
 		return w, false, herr("server start: %v", err)
 	}
